@@ -6,6 +6,7 @@ import (
 )
 
 var checks = map[string]func(*Report){
+	"C01": runC01,
 	"C12": runC12,
 	"C19": runC19,
 	"C13": runC13,
